@@ -160,8 +160,9 @@ CLAIMED = {
          "on whatever store, the solve cannot succeed. The list of gates covered on the baseline is frozen (oracles/c09_static_gates.json): one "
          "that drops out is reported, with a real return that answers yes and still solves when one is found. The remaining 13 gates "
          "(read after other reads, inside helper functions, or conditional by design - marked in the oracle) and the numeric limits (foreign tax "
-         "over the Form 1116 threshold, more payers than Schedule B rows) are decided by exploration: each gate is flipped to yes in seeded "
-         "real-form scenarios that consult it and the real solver must not report success. A gate of the oracle that no line reads is a violation.",
+         "over the Form 1116 threshold, more payers than Schedule B rows, HSA contributions over the limit with and without employer money) are "
+         "decided by exploration: each gate is flipped to yes in seeded real-form scenarios that consult it - conditional gates in the scenario "
+         "recorded with them in the oracle - and the real solver must not report success. A gate of the oracle that no line reads is a violation.",
     design_ref='DESIGN.md §4 C09, §13',
     note="Partial: 13 of 40 gates and the numeric limits rest on exploration only. The gate oracle (oracles/gates_<year>.json) was proposed from the "
          "tree as first built, reviewed against the input descriptions, frozen; three entries are marked conditional and one wrong entry was removed "
